@@ -148,6 +148,8 @@ def plan(tier, seed):
         shards.append(("seq", orders[ci::8], sizes, TOLS, threads))
     for ci in range(16):
         shards.append(("hist", ci, 16))
+    for gi in range(8 if tier == "quick" else 32):
+        shards.append(("assignlabels", gi, tier))
     vs = [(4097, 2, 2), (8193, 2, 2), (8193, 3, 1)] if tier == "quick" else \
         [(4097, 2, 3), (8193, 2, 3), (8193, 3, 2), (12289, 3, 2), (12289, 2, 3), (8193, 4, 1), (16385, 4, 1)]
     for ng, T, b in vs:
@@ -248,6 +250,95 @@ def _run_hist(desc):
     return sh
 
 
+def _run_assignlabels(desc):
+    """refinegrains.assignlabels: each grain sees g-vectors recomputed for its OWN position (C compute_gv); all orders of the
+    grain list; oracle = arg-min over per-grain errors with g-vectors from the Python reference formulas"""
+    _, gi, tier = desc
+    import io, contextlib, shutil
+    from ImageD11 import refinegrains, transform as tr, grain as gm, parameters as P
+    from vt.props import c09
+    sh = Shard()
+    pars = c09.geometries("thorough")[(gi * 5) % 128]
+    truth = c09.true_grains(3, seed_of())
+    # a competitor: grain 0 rotated by 0.2 degrees, sitting somewhere else
+    u0, t0 = truth[0]
+    comp = (np.dot(u0, O.rotation_from_axis_angle((1, 2, 3), 0.2).T), t0 + np.array([200.0, -150.0, 80.0]))
+    grains_all = truth + [comp]
+    peaks = c09.simulate(tr, pars, truth)
+    wd = os.path.join(c09.WORK, "c07_al_%d" % os.getpid())
+    shutil.rmtree(wd, ignore_errors=True)
+    os.makedirs(wd)
+    try:
+        with open(os.path.join(wd, "p.flt"), "w") as fh:
+            fh.write("#  sc  fc  omega  Number_of_pixels  avg_intensity  sum_intensity\n")
+            for k in range(len(peaks)):
+                fh.write("%.4f  %.4f  %.4f  %.0f  %.4f  %.4f\n" % (peaks[k, 0], peaks[k, 1], peaks[k, 2], 10, 100.0, 1000.0))
+        sc = np.array([float("%.4f" % v) for v in peaks[:, 0]]); fc = np.array([float("%.4f" % v) for v in peaks[:, 1]])
+        om = np.array([float("%.4f" % v) for v in peaks[:, 2]])
+        det = {k: pars[k] for k in ("distance", "y_center", "z_center", "y_size", "z_size", "tilt_x", "tilt_y", "tilt_z", "o11", "o12", "o21", "o22")}
+        xyz = tr.compute_xyz_lab(np.array([sc, fc]), **det)
+        errs = []
+        for ubi, t in grains_all:
+            tth, eta = tr.compute_tth_eta_from_xyz(xyz, om * pars["omegasign"], t_x=t[0], t_y=t[1], t_z=t[2], wedge=pars["wedge"], chi=pars["chi"])
+            g = tr.compute_g_vectors(tth, eta, om * pars["omegasign"], pars["wavelength"], wedge=pars["wedge"], chi=pars["chi"])
+            h = np.dot(ubi, g)
+            d = h - np.round(h)
+            errs.append((d * d).sum(axis=0))
+        errs = np.array(errs)
+        for tol in (0.02, 0.05):
+            for order in itertools.permutations(range(4)):
+                with contextlib.redirect_stdout(io.StringIO()):
+                    o = refinegrains.refinegrains(tolerance=tol, OmFloat=False)
+                    o.parameterobj = P.parameters(**pars)
+                    o.loadfiltered(os.path.join(wd, "p.flt"))
+                    for pos, gidx in enumerate(order):
+                        o.grainnames.append(pos)
+                        o.ubisread[pos] = grains_all[gidx][0].copy()
+                        o.translationsread[pos] = grains_all[gidx][1].copy()
+                    o.generate_grains()
+                    o.assignlabels(quiet=True)
+                col = o.scandata[os.path.join(wd, "p.flt")]
+                labels = np.asarray(col.labels).astype(int)
+                drl = np.asarray(col.drlv2, float)
+                e = errs[list(order)]
+                tol2 = tol * tol
+                elig = e < tol2
+                border = (np.abs(e - tol2) < 1e-7).any(axis=0)
+                emask = np.where(elig, e, np.inf)
+                best = emask.min(axis=0)
+                case = {"kind": "assignlabels", "geometry": (gi * 5) % 128, "order": list(order), "tol": tol, "seed": seed_of()}
+                none = ~elig.any(axis=0)
+                ok = True
+                bad = none & ~border & (labels != -1)
+                if bad.any():
+                    sh.violation("assignlabels:unindexed-peak-labelled", case, {"peak": int(np.nonzero(bad)[0][0])}); ok = False
+                has = ~none & ~border
+                lab_err = np.full(len(labels), np.nan)
+                for pos in range(4):
+                    m = labels == pos
+                    lab_err[m] = emask[pos, m]
+                wrong = has & ~(np.abs(lab_err - best) <= 1e-7)
+                if ok and wrong.any():
+                    k = int(np.nonzero(wrong)[0][0])
+                    sh.violation("assignlabels:not-best-grain", case, {"peak": k, "label": int(labels[k]), "errors": e[:, k], "tol2": tol2}); ok = False
+                if ok and (has & ~(np.abs(drl - best) <= 1e-7)).any():
+                    k = int(np.nonzero(has & ~(np.abs(drl - best) <= 1e-7))[0][0])
+                    sh.violation("assignlabels:stored-error-not-minimum", case, {"peak": k, "drlv2": float(drl[k]), "best": float(best[k])}); ok = False
+                if ok:
+                    for pos in range(4):
+                        if o.grains[(pos, os.path.join(wd, "p.flt"))].npks != int((labels == pos).sum()):
+                            sh.violation("assignlabels:grain-peak-count-not-histogram", dict(case, grain=pos), {}); break
+                sh.borderline += int(border.sum())
+                sh.evaluations += 1
+                if int(elig.sum(axis=0).max()) >= 2:
+                    sh.nontrivial += 1
+                sh.outcomes.add(("assignlabels", int((labels >= 0).sum()) % 5))
+        sh.sample(case, limit=1)
+    finally:
+        shutil.rmtree(wd, ignore_errors=True)
+    return sh
+
+
 _V = None
 
 
@@ -330,6 +421,8 @@ def run_shard(desc):
         return _run_seq(desc)
     if desc[0] == "hist":
         return _run_hist(desc)
+    if desc[0] == "assignlabels":
+        return _run_assignlabels(desc)
     return _run_sched(desc)
 
 
@@ -338,7 +431,10 @@ def replay(case):
     indexing.loglevel = 3
     sh = Shard()
     os.environ["VERIF_SEED"] = str(case.get("seed", 0))
-    if case["kind"] == "hist":
+    if case["kind"] == "assignlabels":
+        r = _run_assignlabels(("assignlabels", case["geometry"] // 5 if case["geometry"] % 5 == 0 else 0, "quick"))
+        sh.violations = [v for v in r.violations if v["case"]["order"] == case["order"] and v["case"]["tol"] == case["tol"]]
+    elif case["kind"] == "hist":
         r = _run_hist(("hist", 0, 1))
         sh.violations = [v for v in r.violations if v["case"]["first"] == case["first"] and v["case"]["second"] == case["second"]]
     elif case["kind"] == "seq":
